@@ -589,6 +589,10 @@ def chk_discrete(ctx, xs2, ys2, halves, sort, kind='list', opts=None):
     offx, offy = opts.get('offx', 0), opts.get('offy', 0)
     x = [(v + offx) / float(divx) if divx != 1 else v + offx for v in xs2]
     y = [(v + offy) / float(divy) if divy != 1 else v + offy for v in ys2]
+    if opts.get('negzero'):
+        # every second zero coordinate is written -0.0 (what np.round(-0.2) gives): the same number, hence the same point
+        x = [(-0.0 if (float(v) == 0.0 and i % 2) else float(v)) for i, v in enumerate(x)]
+        y = [(-0.0 if (float(v) == 0.0 and i % 3 == 1) else float(v)) for i, v in enumerate(y)]
     try:
         fig, ax = plt.subplots()
         if opts.get('pre') == 'cloud':
@@ -1338,6 +1342,11 @@ def _run(ctx):
             ctx.add_vm('api_c19_discrete_sorted', [xs, ys], orun(ctx, [('api_c19_discrete_sorted', [xs, ys])])[0])
         if len(ctx.violations) > 6:
             return
+    # ---- (d0) zeros of both signs are one location (seeded change C19-r8m2: rows compared bit by bit)
+    for sort_ in (True, False, None):
+        for kind_ in ('list', 'ndarray'):
+            ctx.count('discrete_negative_zero')
+            _report(ctx, chk_discrete(ctx, [0, 0, 2, 0, -2, 0, 0], [0, 0, 2, 0, 4, 0, 2], True, sort_, kind_, dict(negzero=True)))
     # ---- (e0) custom colour-scale bounds and nothing else: the flat clusters are still the documented default cut at distance 6 of the
     # summed-distance tree (seeded change C19-r7m3: a default cut tied to the last bound).  Pairs at summed distance 4 and 5 decide.
     for bounds in ([0, 1, 2, 3], [0, 2, 4], [0, 5, 10, 40]):
